@@ -29,7 +29,7 @@ import gen_score as G
 
 PROPERTY = "C15"
 DRIVER = "drv_c15"
-PROPS = ["PartituraModel.Props.C15"]
+PROPS = ["PartituraModel.Props.C15", "PartituraModel.Props.C15Ext"]
 TRUSTED = [
     "Part.iter_all() / TimePoint registries as the source of the abstract element lists (their order is what the model "
     "sorts by: time point, class walk of Gen/Classes.lean, insertion)",
@@ -150,6 +150,24 @@ def gen_part(rng, pid, divs, bars, voices, staves, opts):
                         first = n
                 prev = first if (first["kind"] == "note" and pos + dur < end and rng.random() < opts.get("p_tie", 0.2)) else None
                 pos += dur
+    # elements that refer to notes: slurs and tuplets between two notes of a voice, beams over runs of notes, fermatas
+    if opts.get("p_refs", 0) and rng.random() < opts["p_refs"]:
+        d["spans"], d["beams"], d["fermatas"] = [], [], []
+        for v in voices:
+            ns = [n for n in d["notes"] if n["voice"] == v and n["kind"] in ("note", "grace")]
+            for _ in range(rng.randint(0, 2)):
+                if len(ns) >= 2:
+                    i = rng.randrange(0, len(ns) - 1)
+                    j = rng.randrange(i + 1, min(len(ns), i + 5))
+                    d["spans"].append([rng.choice(["Slur", "Slur", "Tuplet"]), ns[i]["id"], ns[j]["id"]])
+            plain = [n for n in ns if n["kind"] == "note"]
+            if len(plain) >= 2 and rng.random() < 0.5:
+                i = rng.randrange(0, len(plain) - 1)
+                d["beams"].append([n["id"] for n in plain[i:i + rng.randint(2, 4)]])
+            if plain and rng.random() < 0.4:
+                d["fermatas"].append(rng.choice(plain)["id"])
+        if ns and opts.get("end_only") and rng.random() < 0.5:
+            d["spans"].append(["Slur", None, rng.choice(ns)["id"]])   # a slur whose start is not in the score
     # other elements
     nx = rng.choice([0, 0, 1, 2, 4, 8]) if not opts.get("allclasses") else 0
     for _ in range(nx):
@@ -158,7 +176,25 @@ def gen_part(rng, pid, divs, bars, voices, staves, opts):
         for cn in DIR_CLASSES + ["Words", "OctaveShiftDirection"] + sorted(OTHER_CLASSES):
             d["extras"].append(gen_extra(rng, end, staves, nostaff, cn))
         d["ks"].append([rng.randrange(0, end), 2, "minor"])
+    if opts.get("shift"):
+        shift_part(d, opts["shift"] * divs)
     return d
+
+
+def shift_part(d, k):
+    """move everything `k` divisions later: the first time point of the part is then > 0"""
+    for key in ("ts", "ks", "clefs"):
+        for x in d[key]:
+            x[0] += k
+    for n in d["notes"]:
+        n["t"] += k
+    for m in d["measures"]:
+        m[0] += k
+        m[1] += k
+    for x in d["extras"]:
+        x[1] += k
+        if x[2] is not None:
+            x[2] += k
 
 
 def gen_extra(rng, end, staves, nostaff, cn=None):
@@ -233,11 +269,63 @@ def gen_case(rng, mode=None, nparts=None, divs=None, **o):
         voices = sorted(rng.sample(range(1, maxv + 1 + (rng.random() < 0.3)), nv))
         staves = rng.randint(1, 3)
         opts = {"ts": ts, "nostaff": rng.choice(["no", "no", "no", "all", "some"]), "allclasses": o.get("allclasses", False),
-                "p_rest_voice": 0.12, "p_tie": 0.25}
+                "p_rest_voice": 0.12, "p_tie": 0.25, "p_refs": o.get("p_refs", 0.5), "end_only": o.get("end_only", False)}
+        if o.get("shift"):
+            # parts that start later than 0, each at its own musical time (whole quarters, so that every divisions
+            # value represents it)
+            opts["shift"] = rng.choice([0, 1, 1, 2, 3, 5])
         if o.get("nostaff"):
             opts["nostaff"] = o["nostaff"]
         parts.append(gen_part(rng, "P%d" % i, dv, bars, voices, staves, opts))
     return {"k": "merge", "mode": mode or rng.choice(MODES), "arg": gen_shape(rng, n, o.get("single_kind")), "parts": parts}
+
+
+# scores of the implementation's own test data with two or more parts (and some with one part inside groups), by cost
+FILES_SMALL = [
+    "tests/data/musicxml/test_merge_voices1.xml", "tests/data/musicxml/test_merge_voices2.xml",
+    "tests/data/musicxml/test_multi_part.xml", "tests/data/musicxml/test_multi_part_change_divs.xml",
+    "tests/data/musicxml/test_clef.musicxml", "tests/data/musicxml/test_clefs_tss.xml",
+    "tests/data/musicxml/test_length_pianoroll.xml", "tests/data/musicxml/test_part_group.xml",
+    "tests/data/musicxml/test_pianoroll_sum_reduced.xml",
+    "tests/data/mei/test_clefs_tss.mei", "tests/data/mei/test_merge_voices2.mei", "tests/data/mei/test_metrical_position.mei",
+    "tests/data/mei/test_parts_duration.mei", "tests/data/mei/test_parts_duration2.mei",
+    "tests/data/kern/double_repeat_example.krn", "tests/data/kern/fine_with_repeat.krn", "tests/data/kern/long_example.krn",
+    "tests/data/kern/spline_splitting.krn", "tests/data/kern/voice_duplication.krn", "tests/data/kern/single_voice_example.krn",
+]
+FILES_LARGE = [
+    "tests/data/kern/chor228.krn", "tests/data/kern/variable_length_pr_bug.krn",
+    "tests/data/musicxml/test_score_object.musicxml", "tests/data/musicxml/test_pianoroll_sum.xml",
+    "tests/data/musicxml/test_ts_map_ts_starts_not_at_zero.xml", "tests/data/musicxml/test_merge_interpolation.xml",
+    "tests/data/mei/test_cross_staff_voices.mei", "tests/data/mei/Mozart_k265_v1.mei",
+    "tests/data/mei/Beethoven_Op119_Nr02-Breitkopf.mei", "tests/data/mei/Beethoven_Op119_Nr01-Breitkopf.mei",
+    "tests/data/mei/Bach_Prelude.mei", "tests/data/mei/CRIM_Mass_0030_4.mei",
+    "tests/data/midi/mozart_k265_var1_quantized.mid",
+]
+VIAS = ["load", "score", "parts", "structure", "group"]
+
+
+def file_case(f, via, mode):
+    return {"k": "file", "file": f, "via": via, "mode": "voice" if via == "load" else mode}
+
+
+def file_cases(rng, tier):
+    # the two loaders whose scores merge_parts used to reject (fixes/C15-7, C15-8) are always there
+    yield file_case("tests/data/mei/test_parts_duration.mei", "load", "voice")
+    yield file_case("tests/data/kern/spline_splitting.krn", "load", "voice")
+    yield file_case("tests/data/musicxml/test_merge_voices2.xml", "structure", "auto")   # [[[P, P]], P]
+    if tier == "quick":
+        for _ in range(7):
+            yield file_case(rng.choice(FILES_SMALL), rng.choice(VIAS), rng.choice(MODES))
+        return
+    for f in FILES_SMALL:
+        yield file_case(f, "load", "voice")
+        for via in VIAS[1:]:
+            for mode in MODES:
+                yield file_case(f, via, mode)
+    for f in FILES_LARGE:
+        yield file_case(f, "load", "voice")
+        yield file_case(f, rng.choice(["score", "structure"]), rng.choice(["staff", "auto"]))
+        yield file_case(f, rng.choice(["group", "parts"]), rng.choice(MODES))
 
 
 def _finding_registered(sig):
@@ -249,7 +337,7 @@ def _finding_registered(sig):
 
 
 def cases(rng, tier):
-    n = {"quick": 100, "thorough": 3000, "search": 5000}.get(tier, 100)
+    n = {"quick": 85, "thorough": 3000, "search": 5000}.get(tier, 85)
     # deterministic block: every class in every part, every mode; the division tuples of the property text
     for mode in MODES:
         yield gen_case(rng, mode, divs=[3, 4], allclasses=True)
@@ -267,11 +355,22 @@ def cases(rng, tier):
     c = gen_case(rng, "staff", divs=[4], single_kind="list")
     c["parts"][0]["qd"] = [[1, 8]]
     yield c
+    # parts whose first time point is later than 0 (each part at its own offset), in every mode
+    for mode in MODES:
+        yield gen_case(rng, mode, divs=[3, 4], shift=True)
+    # objects that are on a timeline by their end only (a slur whose start is not in the score), in every mode
+    for mode in MODES:
+        yield gen_case(rng, mode, divs=[2, 3], end_only=True, p_refs=1.0)
+    yield from file_cases(rng, tier)
     overflow = _finding_registered("auto-voice-overflow")
     for i in range(n):
         r = rng.random()
         if r < 0.06:
             yield gen_case(rng, nparts=1)
+        elif r < 0.2:
+            yield gen_case(rng, shift=True)
+        elif r < 0.3:
+            yield gen_case(rng, end_only=True, p_refs=1.0)
         elif r < 0.12:
             yield gen_case(rng, allclasses=True)
         elif r < 0.16 and overflow:
@@ -281,8 +380,36 @@ def cases(rng, tier):
 
 
 # ---------------------------------------------------------------------------------------------- building
+def build_one(pd):
+    """G.build_part + the elements that refer to notes: slurs / tuplets (start and end note), beams (their notes),
+    fermatas (the note they apply to), slurs that only have an end"""
+    import partitura.score as S
+
+    p = G.build_part(pd)
+    if not (pd.get("spans") or pd.get("beams") or pd.get("fermatas")):
+        return p
+    byid = {n.id: n for n in p.iter_all(S.GenericNote, include_subclasses=True)}
+    for cn, a, b in pd.get("spans", []):
+        na, nb = byid.get(a), byid.get(b)
+        o = getattr(S, cn)(na, nb)
+        p.add(o, None if na is None else na.start.t, None if nb is None else nb.end.t)
+    for ids in pd.get("beams", []):
+        ns = [byid[i] for i in ids if i in byid]
+        if ns:
+            bm = S.Beam()
+            p.add(bm, min(n.start.t for n in ns))
+            for n in ns:
+                n.assign_beam(bm)
+    for i in pd.get("fermatas", []):
+        if i in byid:
+            f = S.Fermata(byid[i])
+            p.add(f, byid[i].start.t)
+            byid[i].fermata = f
+    return p
+
+
 def build_parts(desc):
-    return [G.build_part(pd) for pd in desc["parts"]]
+    return [build_one(pd) for pd in desc["parts"]]
 
 
 def build_arg(spec, parts):
@@ -310,12 +437,28 @@ def flat_order(spec):
     return rec(sh[1]) if sh[0] == "one" else [i for c in sh[1] for i in rec(c)]
 
 
+def structure_tree(x, index, S):
+    """description tree of a real part structure (Part / PartGroup objects); index: id(part) -> part number"""
+    if isinstance(x, S.Part):
+        return ["P", index[id(x)]]
+    return ["G", [structure_tree(c, index, S) for c in x.children]]
+
+
 def starting_objects(part):
     """objects registered as starting on the part's time points (read from the registries, not via iter_all)"""
     out = []
     for tp in part._points:
         for cls, objs in tp.starting_objects.items():
             out.extend(objs)
+    return out
+
+
+def end_only_objects(part):
+    """objects registered only as ending on a time point of the part (they have no start)"""
+    out = []
+    for tp in part._points:
+        for cls, objs in tp.ending_objects.items():
+            out.extend(o for o in objs if o.start is None)
     return out
 
 
@@ -353,15 +496,61 @@ def call(f, *a, **k):
         return None, e
 
 
+def ref_objects(e, S):
+    """the timed objects the attributes of `e` refer to (tie_prev/next, slur_starts/stops, tuplet_starts/stops, beam,
+    fermata, grace_prev/next; start and end note of a slur or tuplet; notes of a beam; referent of a fermata), in a
+    fixed order: attribute name, then position"""
+    out = []
+    dd = vars(e)
+    for k in sorted(dd):
+        if k in ("start", "end"):
+            continue
+        v = dd[k]
+        if isinstance(v, S.TimedObject):
+            out.append(v)
+        elif isinstance(v, (list, tuple)):
+            out.extend(x for x in v if isinstance(x, S.TimedObject))
+    return out
+
+
 # ---------------------------------------------------------------------------------------------- evaluation
+class Oids:
+    """a number per Python object: elements of the inputs get 0, 1, 2 ... in order of iteration, any other object
+    that is referred to gets a number from 10**6 on when it is first asked for"""
+
+    def __init__(self):
+        self.d = {}
+        self.n = 0
+        self.x = {}
+        self.keep = []
+
+    def new(self, o):
+        self.d[id(o)] = self.n
+        self.n += 1
+
+    def get(self, o):
+        return self.d.get(id(o))
+
+    def of(self, o):
+        k = self.d.get(id(o))
+        if k is None:
+            k = self.x.get(id(o))
+            if k is None:
+                k = self.x[id(o)] = 10**6 + len(self.x)
+                self.keep.append(o)
+        return k
+
+
 def enc_elem(e, oid, S):
     isg = isinstance(e, S.GenericNote)
     isn = isinstance(e, S.Note)
-    chain = [oid.get(id(x), 10**9) for x in e.tie_next_notes] if isn else []
-    return "%d %s %d %s %s %s %s %s %s" % (
-        oid[id(e)], W.s(type(e).__name__), e.start.t, W.opt(W.i, None if e.end is None else e.end.t),
+    chain = [oid.of(x) for x in e.tie_next_notes] if isn and e.start is not None else []
+    return "%d %s %d %s %s %s %s %s %s %s" % (
+        oid.get(e), W.s(type(e).__name__), 0 if e.start is None else e.start.t,
+        W.opt(W.i, None if getattr(e, "end", None) is None else e.end.t),
         W.opt(W.i, e.voice if isg else None), W.opt(W.i, getattr(e, "staff", None)),
-        W.opt(W.i, e.midi_pitch if isn else None), W.b(isg and e.tie_prev is not None), W.lst(W.i, chain))
+        W.opt(W.i, e.midi_pitch if isn else None), W.b(isg and e.tie_prev is not None), W.lst(W.i, chain),
+        W.lst(W.i, [oid.of(x) for x in ref_objects(e, S)]))
 
 
 def enc_shape(spec, enc_part):
@@ -373,10 +562,17 @@ def enc_shape(spec, enc_part):
     return "one " + tree(sh[1]) if sh[0] == "one" else "many " + W.lst(tree, sh[1])
 
 
-def f_elem(e, oid):
-    return W.f_tuple(W.f_opt(W.f_int, oid.get(id(e))), type(e).__name__, W.f_int(e.start.t),
+def f_tail(e, oid, S):
+    return W.f_tuple(W.f_opt(W.f_int, oid.get(e)), type(e).__name__, W.f_opt(W.f_int, None if e.end is None else e.end.t),
+                     W.f_opt(W.f_int, getattr(e, "voice", None)), W.f_opt(W.f_int, getattr(e, "staff", None)),
+                     W.f_list(W.f_int, [oid.of(x) for x in ref_objects(e, S)]))
+
+
+def f_elem(e, oid, S):
+    return W.f_tuple(W.f_opt(W.f_int, oid.get(e)), type(e).__name__, W.f_int(e.start.t),
                      W.f_opt(W.f_int, None if e.end is None else e.end.t),
-                     W.f_opt(W.f_int, getattr(e, "voice", None)), W.f_opt(W.f_int, getattr(e, "staff", None)))
+                     W.f_opt(W.f_int, getattr(e, "voice", None)), W.f_opt(W.f_int, getattr(e, "staff", None)),
+                     W.f_list(W.f_int, [oid.of(x) for x in ref_objects(e, S)]))
 
 
 def doc_structural(S):
@@ -388,49 +584,141 @@ def doc_structural(S):
     return {w for w in re.findall(r"\b[A-Z][A-Za-z]+\b", doc) if w in names}
 
 
+def qd_list(p):
+    """`_quarter_durations` as the model sees them: an entry that is not an integer value becomes 0 (rejected)"""
+    return [int(q) if float(q).is_integer() and q >= 0 else 0 for q in p._quarter_durations]
+
+
+class Prep:
+    pass
+
+
+def prepare(parts, spec, S):
+    """abstract description of the inputs, taken BEFORE the call (merge_parts modifies the objects)"""
+    pr = Prep()
+    pr.parts = parts
+    pr.spec = spec
+    pr.order = flat_order(spec)
+    oid = pr.oid = Oids()
+    pr.elems = {}
+    pr.tails = {}
+    for pi in range(len(parts)):
+        es = input_elements(parts[pi])
+        if len({id(e) for e in es}) != len(es):
+            raise RuntimeError("iter_all yields an object twice")
+        pr.elems[pi] = es
+        for e in es:
+            oid.new(e)
+        pr.tails[pi] = end_only_objects(parts[pi])
+        for e in pr.tails[pi]:
+            oid.new(e)
+    enc_part = {}
+    for pi, p in enumerate(parts):
+        enc_part[pi] = "%d %s %s %s" % (pi, W.lst(W.i, qd_list(p)), W.lst(lambda e: enc_elem(e, oid, S), pr.elems[pi]),
+                                        W.lst(lambda e: enc_elem(e, oid, S), pr.tails[pi]))
+        for e in pr.elems[pi]:
+            if isinstance(e, S.Note):
+                if e.duration_tied != e.duration + sum(x.duration for x in e.tie_next_notes):
+                    raise RuntimeError("duration_tied is not the sum over tie_next_notes")
+    pr.shape_txt = enc_shape(spec, enc_part)
+    pr.snap = snapshot(parts, S)
+    pr.fp_before = {pi: G.fingerprint_part(p, with_ids=True) for pi, p in enumerate(parts)} if len(pr.order) == 1 else None
+    # ---- is the input in the domain of the property?
+    pr.multi = [i for i in pr.order if len(parts[i]._quarter_durations) != 1]
+    pr.outside = None
+    for i in pr.order:
+        p = parts[i]
+        if any(not float(q).is_integer() or q <= 0 for q in p._quarter_durations):
+            pr.outside = "a divisions value is not a positive integer"
+        for e in pr.elems[i] + pr.tails[i]:
+            if isinstance(e, S.GenericNote) and (e.voice is None or e.voice < 1):
+                pr.outside = "a note without voice (or with a voice below 1)"
+            elif getattr(e, "staff", None) is not None and e.staff < 1:
+                pr.outside = "a staff number below 1"
+    return pr
+
+
+def repo_root():
+    import os
+
+    return os.environ.get("VERIF_REPO", "/repo")
+
+
 def evaluate(d):
+    import os
     import numpy as np
     import partitura.score as S
     from partitura.utils.music import note_array_from_part_list
 
     ev = Eval()
     mode = d["mode"]
-    spec = d["arg"]
-    parts = build_parts(d)
-    fresh = build_parts(d)
-    order = flat_order(spec)
-    arg = build_arg(spec, parts)
+    op = "merge"
+    if d.get("k", "merge") == "merge":
+        spec = d["arg"]
+        parts = build_parts(d)
+        fresh = build_parts(d)
+        arg = build_arg(spec, parts)
+        pr = prepare(parts, spec, S)
+        res, err = call(S.merge_parts, arg, mode)
+    else:
+        import partitura.io as IO
 
-    # ---- abstract description of the inputs (before the call)
-    oid, counter = {}, 0
-    elems = {}
-    for pi in range(len(parts)):
-        es = input_elements(parts[pi])
-        if len({id(e) for e in es}) != len(es):
-            raise RuntimeError("iter_all yields an object twice")
-        elems[pi] = es
-        for e in es:
-            oid[id(e)] = counter
-            counter += 1
-    byid = {}
-    enc_part = {}
-    for pi, p in enumerate(parts):
-        enc_part[pi] = "%d %s %s" % (pi, W.lst(W.i, p._quarter_durations), W.lst(lambda e: enc_elem(e, oid, S), elems[pi]))
-        for e in elems[pi]:
-            if isinstance(e, S.Note):
-                byid[e.id] = oid[id(e)]
-                if e.duration_tied != e.duration + sum(x.duration for x in e.tie_next_notes):
-                    raise RuntimeError("duration_tied is not the sum over tie_next_notes")
-    shape_txt = enc_shape(spec, enc_part)
-    snap = snapshot(parts, S)
-    fp_before = {pi: G.fingerprint_part(p, with_ids=True) for pi, p in enumerate(parts)} if len(order) == 1 else None
+        path = os.path.join(repo_root(), d["file"])
+        via = d["via"]
 
-    # ---- the call
-    res, err = call(S.merge_parts, arg, mode)
+        def spec_of(scr, parts):
+            index = {id(p): i for i, p in enumerate(parts)}
+            st = list(scr.part_structure)
+            groups = [x for x in st if isinstance(x, S.PartGroup)]
+            if via == "group" and groups:
+                return {"score": False, "shape": ["one", structure_tree(groups[0], index, S)]}, groups[0]
+            sp = {"score": via == "score", "shape": ["many", [structure_tree(x, index, S) for x in st]]}
+            if via == "parts":
+                sp = {"score": False, "shape": ["many", [["P", i] for i in range(len(parts))]]}
+            return sp, (scr if via == "score" else list(parts) if via == "parts" else st)
+
+        fscr, e0 = call(IO.load_score, path)
+        if e0 is not None:
+            ev.key = None  # the file does not load: nothing to merge
+            ev.info = {"file": d["file"], "load": repr(e0)[:100]}
+            return ev
+        fresh = list(fscr.parts)
+        if via == "load":
+            # load_score_as_part(filename): the score it loads is observed (not changed) through a wrapper of
+            # partitura.io.load_score, so that the inputs can be described before merge_parts modifies them
+            op = "load"
+            mode = "voice"
+            hold = {}
+            orig = IO.load_score
+
+            def spy(*a, **k):
+                scr = orig(*a, **k)
+                ps = list(scr.parts)
+                hold["pr"] = prepare(ps, spec_of(scr, ps)[0], S)
+                return scr
+
+            IO.load_score = spy
+            try:
+                res, err = call(IO.load_score_as_part, path)
+            finally:
+                IO.load_score = orig
+            if "pr" not in hold:
+                raise RuntimeError("load_score_as_part did not call load_score")
+            pr = hold["pr"]
+            parts = pr.parts
+        else:
+            scr, e1 = call(IO.load_score, path)
+            if e1 is not None:
+                raise RuntimeError("second load failed")
+            parts = list(scr.parts)
+            spec, arg = spec_of(scr, parts)
+            pr = prepare(parts, spec, S)
+            res, err = call(S.merge_parts, arg, mode)
+    oid, order, shape_txt, snap = pr.oid, pr.order, pr.shape_txt, pr.snap
     res_elems = None
 
     # ---- correspondence
-    ev.requests.append("merge %s %s" % (W.s(mode), shape_txt))
+    ev.requests.append("%s %s %s" % (op, W.s(mode), shape_txt))
     if err is not None:
         ev.impl.append("err")
     elif any(res is p for p in parts):
@@ -439,21 +727,42 @@ def evaluate(d):
         qd = list(res._quarter_durations)
         L = int(qd[0]) if len(qd) == 1 else -1
         res_elems = list(res.iter_all())
-        ev.impl.append(W.f_tuple(W.f_int(L), W.f_list(lambda e: f_elem(e, oid), res_elems),
+        ev.impl.append(W.f_tuple(W.f_int(L), W.f_list(lambda e: f_elem(e, oid, S), res_elems),
                                  W.f_list(lambda tp: W.f_int(tp.t), res._points)))
         ev.requests.append("quarters %s %s" % (W.s(mode), shape_txt))
         ev.impl.append(W.f_list(lambda tp: W.f_opt(W.f_int, tp.quarter), res._points))
+        res_tails = end_only_objects(res)
+        here = {id(e) for e in starting_objects(res)} | {id(e) for e in res_tails}
+        dang = sorted((oid.of(e), oid.of(x)) for e in res_elems + res_tails for x in ref_objects(e, S) if id(x) not in here)
+        ev.requests.append("dangling %s %s" % (W.s(mode), shape_txt))
+        ev.impl.append(W.f_list(lambda t: W.f_tuple(W.f_int(t[0]), W.f_int(t[1])), dang))
+        if any(pr.tails[i] for i in order) or res_tails:
+            ev.requests.append("tails %s %s" % (W.s(mode), shape_txt))
+            ev.impl.append(W.f_list(lambda e: f_tail(e, oid, S), sorted(res_tails, key=oid.of)))
     if err is None:
         na, e2 = call(res.note_array, include_staff=True)
         ev.requests.append("rows %s %s" % (W.s(mode), shape_txt))
         if e2 is not None:
             ev.impl.append("err:note_array")
         else:
-            rows = sorted((int(r["onset_div"]), int(r["pitch"]), byid.get(str(r["id"]), -1), int(r["duration_div"]), int(r["voice"]), int(r["staff"])) for r in na)
+            # a row is identified with the note object it describes (ids may be missing or repeat across parts in real
+            # files): same id, onset, pitch, duration, voice, staff; notes that agree in all of these are interchangeable
+            bucket = {}
+            for n in res.notes_tied:
+                k = (str(n.id), n.start.t, n.midi_pitch, n.duration_tied, n.voice, n.staff if n.staff else 0)
+                bucket.setdefault(k, []).append(oid.of(n))
+            for v in bucket.values():
+                v.sort(reverse=True)
+            rows = []
+            for r in na:
+                k = (str(r["id"]), int(r["onset_div"]), int(r["pitch"]), int(r["duration_div"]), int(r["voice"]), int(r["staff"]))
+                b = bucket.get(k)
+                rows.append((k[1], k[2], b.pop() if b else -1, k[3], k[4], k[5]))
+            rows.sort()
             ev.impl.append(W.f_list(lambda r: W.f_tuple(W.f_int(r[2]), W.f_int(r[0]), W.f_int(r[3]), W.f_int(r[1]), W.f_int(r[4]), W.f_int(r[5])), rows))
     ref_rows = None
     all_sounding = all(len(fresh[i].notes_tied) > 0 for i in order)
-    if all_sounding and all(len(fresh[i]._quarter_durations) == 1 for i in order):
+    if all_sounding and pr.outside is None and all(len(fresh[i]._quarter_durations) == 1 for i in order):
         sna, e3 = call(note_array_from_part_list, [fresh[i] for i in order])
         ev.requests.append("ref %s %s" % (W.s(mode), shape_txt))
         if e3 is not None:
@@ -464,23 +773,27 @@ def evaluate(d):
 
     # ---- oracle (independent of the model)
     valid_mode = mode in MODES
-    multi = [i for i in order if len(d["parts"][i].get("qd", [])) > 0]
     if not valid_mode:
         if err is None:
             ev.oracle.append("rejects: reassign=%r was accepted" % mode)
         ev.key = None
         return ev
-    if len(order) > 1 and multi:
+    if len(order) > 1 and pr.multi:
         if err is None:
             ev.oracle.append("rejects: parts with several divisions values were merged")
         ev.key = None
         return ev
-    ev.key = "%s|%08x" % (mode, zlib.crc32(shape_txt.encode()))
-    ev.info = {"mode": mode, "nparts": len(order), "divs": [d["parts"][i]["divs"] for i in order]}
-    if err is not None:
-        ev.oracle.append("raises: merge_parts(%d parts, reassign=%r) raised %r" % (len(order), mode, err))
+    if len(order) > 1 and pr.outside:
+        ev.key = None   # outside the domain of the property: only compared with the model
+        ev.info = {"outside": pr.outside}
         return ev
-    ev.oracle += oracle(d, parts, order, snap, res, res_elems, mode, fp_before, ref_rows, S, np)
+    ev.key = "%s|%s|%08x" % (op, mode, zlib.crc32(shape_txt.encode()))
+    ev.info = {"mode": mode, "nparts": len(order), "divs": [int(parts[i]._quarter_durations[0]) for i in order]}
+    if err is not None:
+        ev.oracle.append("raises: %s(%d parts, reassign=%r) raised %r" % (
+            "load_score_as_part" if op == "load" else "merge_parts", len(order), mode, err))
+        return ev
+    ev.oracle += oracle(d, parts, order, snap, res, res_elems, mode, pr.fp_before, ref_rows, S, np)
     return ev
 
 
@@ -488,16 +801,18 @@ def snapshot(parts, S):
     snap = {}
     for pi, p in enumerate(parts):
         qd = p._quarter_durations
-        dv = int(qd[0])
-        for e in starting_objects(p):
+        dv = int(qd[0]) or 1
+        for e in starting_objects(p) + end_only_objects(p):
             isg = isinstance(e, S.GenericNote)
             snap[id(e)] = {
                 "obj": e, "part": pi, "cls": type(e),
-                "start": Fraction(e.start.t, dv), "end": None if e.end is None else Fraction(e.end.t, dv),
+                "start": None if e.start is None else Fraction(e.start.t, dv),
+                "end": None if getattr(e, "end", None) is None else Fraction(e.end.t, dv),
                 "voice": e.voice if isg else None, "staff": getattr(e, "staff", None),
                 "pitch": e.midi_pitch if isinstance(e, S.Note) else None,
                 "symdur": (e.symbolic_duration if isg and len(qd) == 1 else None),
                 "name": "%s %s" % (type(e).__name__, getattr(e, "id", None) or ""),
+                "refs": ref_objects(e, S) if isinstance(e, S.TimedObject) else [],
             }
     return snap
 
@@ -535,6 +850,13 @@ def oracle(d, parts, order, snap, res, res_elems, mode, fp_before, ref_rows, S, 
     via_iter = {id(e) for e in (res_elems if res_elems is not None else res.iter_all())}
     if via_iter != set(got):
         fails.append("registry: iter_all() of the merged part and its time point registries disagree")
+    # objects that are on the merged part by their end only
+    for e in end_only_objects(res):
+        if id(e) in got:
+            fails.append("twice: %s is registered twice on the merged part" % type(e).__name__)
+        got[id(e)] = e
+        if id(e) not in snap:
+            fails.append("foreign: the merged part holds a %s that is in no input" % type(e).__name__)
     doc = doc_structural(S)
     first = order[0]
     for key, s in snap.items():
@@ -545,6 +867,10 @@ def oracle(d, parts, order, snap, res, res_elems, mode, fp_before, ref_rows, S, 
         expect_in = True
         if s["part"] != first and structural:
             expect_in = (structural == ["Clef"] and mode in ("staff", "auto"))
+        if expect_in and key not in got and s["start"] is None:
+            fails.append("endonly: %s of part %d, which is on the timeline by its end only, is not in the merged part" % (
+                s["name"], order.index(s["part"])))
+            continue
         if expect_in and key not in got:
             what = "structural" if structural else "non-structural"
             fails.append("missing: %s element %s of part %d is not in the merged part (documented as taken from the first part only: %s)" % (
@@ -554,17 +880,31 @@ def oracle(d, parts, order, snap, res, res_elems, mode, fp_before, ref_rows, S, 
             if key in got:
                 fails.append("structural: %s of part %d (not the first) is in the merged part" % (s["name"], order.index(s["part"])))
             continue
-        st = Fraction(e.start.t, L)
+        st = None if e.start is None else Fraction(e.start.t, L)
         en = None if e.end is None else Fraction(e.end.t, L)
         if st != s["start"] or en != s["end"]:
             fails.append("time: %s of part %d moved from (%s, %s) to (%s, %s) quarters" % (
                 s["name"], order.index(s["part"]), s["start"], s["end"], st, en))
-        if e.start is None or res.get_point(e.start.t) is not e.start:
+        if s["start"] is not None and (e.start is None or res.get_point(e.start.t) is not e.start):
             fails.append("time: %s does not start on a time point of the merged part" % s["name"])
+        if s["start"] is None and (e.end is None or res.get_point(e.end.t) is not e.end):
+            fails.append("time: %s does not end on a time point of the merged part" % s["name"])
         if isinstance(e, S.Note) and e.midi_pitch != s["pitch"]:
             fails.append("pitch: %s changed pitch" % s["name"])
         if isinstance(e, S.GenericNote) and s["symdur"] != e.symbolic_duration:
             fails.append("symdur: %s had symbolic duration %r, in the merged part %r" % (s["name"], s["symdur"], e.symbolic_duration))
+        # references (ties, slurs, tuplets, beams, grace chains ...): the very same objects, and a referenced object
+        # that the merged part must hold is registered on it
+        now = ref_objects(e, S)
+        if [id(x) for x in now] != [id(x) for x in s["refs"]]:
+            fails.append("refs: %s of part %d refers to other objects than before merging" % (s["name"], order.index(s["part"])))
+        for x in s["refs"]:
+            sx = snap.get(id(x))
+            if sx is None or sx["part"] != s["part"]:
+                continue  # the input itself refers outside its part
+            tp = x.start if x.start is not None else x.end
+            if id(x) in got and (tp is None or res.get_point(tp.t) is not tp):
+                fails.append("refs: %s refers to %s, which is not on the timeline of the merged part" % (s["name"], sx["name"]))
     # ---- voices / staves of all notes and rests
     gn = [(s, s["obj"]) for k, s in snap.items() if s["part"] in order and isinstance(s["obj"], S.GenericNote) and k in got]
 
@@ -628,9 +968,23 @@ def finding_key(d, f):
     return f.split(":")[0]
 
 
+def _prune_refs(pd):
+    """after notes were removed: drop the slurs / tuplets / beams / fermatas that referred to them"""
+    ids = {n["id"] for n in pd["notes"]}
+    if "spans" in pd:
+        pd["spans"] = [x for x in pd["spans"] if (x[1] is None or x[1] in ids) and (x[2] is None or x[2] in ids)]
+    if "beams" in pd:
+        pd["beams"] = [[i for i in b if i in ids] for b in pd["beams"]]
+        pd["beams"] = [b for b in pd["beams"] if b]
+    if "fermatas" in pd:
+        pd["fermatas"] = [i for i in pd["fermatas"] if i in ids]
+
+
 def shrink(d):
     import copy
 
+    if d.get("k", "merge") != "merge":
+        return   # a file of the test data is a case as it is
     n = len(d["parts"])
     order = flat_order(d["arg"])
     # flat list argument
@@ -658,12 +1012,19 @@ def shrink(d):
                 kept = p["notes"][:cut]
                 ids = {x["id"] for x in kept}
                 c["parts"][pi]["notes"] = [{k: v for k, v in x.items() if k != "tie" or v in ids} for x in kept]
+                _prune_refs(c["parts"][pi])
                 yield c
             for j in range(len(p["notes"]) - 1):
                 c = copy.deepcopy(d)
                 kept = p["notes"][:j] + p["notes"][j + 1:]
                 ids = {x["id"] for x in kept}
                 c["parts"][pi]["notes"] = [{k: v for k, v in x.items() if k != "tie" or v in ids} for x in kept]
+                _prune_refs(c["parts"][pi])
+                yield c
+        for key in ("spans", "beams", "fermatas"):
+            if p.get(key):
+                c = copy.deepcopy(d)
+                c["parts"][pi][key] = p[key][:-1]
                 yield c
         if p["clefs"]:
             c = copy.deepcopy(d)
@@ -678,12 +1039,21 @@ def shrink(d):
 def distribution(descs, results):
     from collections import Counter
 
+    files = [d for d in descs if d.get("k", "merge") != "merge"]
+    descs = [d for d in descs if d.get("k", "merge") == "merge"]
     modes = Counter(d["mode"] for d in descs)
     nparts = Counter(len(d["parts"]) for d in descs)
     divs = Counter(str(tuple(p["divs"] for p in d["parts"])) for d in descs)
     shapes = Counter(("score:" if d["arg"]["score"] else "") + d["arg"]["shape"][0] for d in descs)
     nostaff = sum(1 for d in descs for p in d["parts"] if any(n.get("staff") is None for n in p["notes"]))
     classes = Counter(x[0] for d in descs for p in d["parts"] for x in p["extras"])
+    refs = Counter(x[0] for d in descs for p in d["parts"] for x in p.get("spans", []))
+    refs["Beam"] = sum(len(p.get("beams", [])) for d in descs for p in d["parts"])
+    refs["Fermata(note)"] = sum(len(p.get("fermatas", [])) for d in descs for p in d["parts"])
+    late = sum(1 for d in descs if any(p["measures"] and p["measures"][0][0] > 0 for p in d["parts"]))
     return {"modes": dict(modes), "parts_per_case": dict(nparts), "division_tuples": dict(divs.most_common(30)),
             "argument_shapes": dict(shapes), "parts_with_missing_staves": nostaff,
-            "classes_of_other_elements": len(classes), "rejected_inputs": sum(1 for r in results if r.get("key") is None)}
+            "classes_of_other_elements": len(classes), "elements_with_references": dict(refs),
+            "cases_with_a_part_starting_after_0": late,
+            "file_cases": dict(Counter(d["via"] for d in files)), "files": len({d["file"] for d in files}),
+            "rejected_inputs": sum(1 for r in results if r.get("key") is None)}
